@@ -955,8 +955,8 @@ class NumpyStub:
         res, shape = self.axis_reduce(a, axis, f)
         return self._wrap_reduce(res, shape, dt)
 
-    def m_cumsum(self, a, axis=None, **k):
-        dt = _np.ones(1, a.dtype).cumsum().dtype
+    def m_cumsum(self, a, axis=None, dtype=None, **k):
+        dt = _np.ones(1, a.dtype).cumsum(dtype=None if dtype is None else self.to_dtype(dtype)).dtype
         if axis is None:
             out, acc = [], 0
             for x in a.elems():
